@@ -10,7 +10,8 @@ open Panqec
 `uf.trace  H sy sched`  → every growth step, the roots, every peeling tree and round, the result
                           (same text as `harness/uf_trace.py` builds from the running implementation)
 
-`uf.class  H`           → `closed` | `graphlike` | `none` (the predicates `closedGraph`, `graphLike`)
+`uf.class  H`           → `closed` | `closedmulti` | `graphlike` | `multigraph` | `none` (the predicates
+                          `closedGraph`, `closedMultigraph`, `graphLike`, `multigraphLike`, most special first)
 `uf.toric  Lx Ly z|x`   → `<class> <matrix>`: the sector matrix `Hz` / `Hx` (`Model/Code.lean`) of the
                           parity-check matrix assembled from the all-sizes lattice model
                           `Model/Lattices/Toric2DCode.lean` — the subject of
@@ -90,15 +91,18 @@ def uf_trace (H : Mat) (sy : Vec) (sched : List (List Int)) : String :=
   " ".intercalate ([first] ++ steps ++ [fin] ++ trees ++ [uf_outcome run.outcome]) ++
     uf_flags run.schedOk run.bad
 
+/-- which hypothesis of the theorems in `Properties/C05UnionFind.lean` the matrix satisfies -/
+def uf_class (H : Mat) : String :=
+  if UF.closedGraph H then "closed" else if UF.closedMultigraph H then "closedmulti"
+  else if UF.graphLike H then "graphlike" else if UF.multigraphLike H then "multigraph" else "none"
+
 def handleUnionFind : List String → Option String
   | ["uf.decode", h, sy, sc] =>
     let run := UF.decodeWith (parseStack h) (parseVec sy) (uf_parseSched sc)
     some (uf_outcome run.outcome ++ uf_flags run.schedOk run.bad)
   | ["uf.trace", h, sy, sc] => some (uf_trace (parseStack h) (parseVec sy) (uf_parseSched sc))
   | ["uf.class", h] =>
-    -- which hypothesis of the theorems in `Properties/C05UnionFind.lean` the matrix satisfies
-    let H := parseStack h
-    some (if UF.closedGraph H then "closed" else if UF.graphLike H then "graphlike" else "none")
+    some (uf_class (parseStack h))
   | ["uf.toric", lx, ly, sec] =>
     match lx.toNat?, ly.toNat? with
     | some Lx, some Ly =>
@@ -106,8 +110,7 @@ def handleUnionFind : List String → Option String
       | none => some "ERR key"
       | some M =>
         let H := if sec == "z" then Hz M else Hx M
-        some ((if UF.closedGraph H then "closed" else if UF.graphLike H then "graphlike" else "none")
-          ++ " " ++ showStack H)
+        some (uf_class H ++ " " ++ showStack H)
     | _, _ => none
   | _ => none
 
